@@ -14,6 +14,7 @@ bool vf_timers_autofire;
 bool vf_tasks_autorun;
 bool vf_epoll_desc;
 int vf_epoll_waits;
+int vf_epoll_fail_errno;              /* next epoll_wait fails once with this errno (EINTR: interrupted by a signal) */
 
 static int vf_alloc(enum vf_kind k, bool lib) {
     for (int i = 3; i < VF_NFD; i++) {
@@ -124,6 +125,7 @@ static bool vf_ready_now(struct vf_fd *f) {
 int vf_epoll_wait(int ep, struct epoll_event *evs, int max, int timeout) {
     (void)ep;
     vf_epoll_waits++;
+    if (vf_epoll_fail_errno) { errno = vf_epoll_fail_errno; vf_epoll_fail_errno = 0; return -1; }
     if (vf_tasks_autorun) vf_run_tasks();
     int n = 0;
     for (int k = 3; k < VF_NFD; k++) {
